@@ -308,7 +308,8 @@ CONSTANTS Layouts,       \* set of derived, well-formed layout records
           Variants,      \* subset of {"asis", "fixed"}
           Cuts,          \* BOOLEAN: PowerCut enabled
           MaxFaults,     \* 0 / 1: one command of the operation fails with a tag error (transient RF fault, not executed)
-          MaxRetry       \* 0 / 1: the application repeats the operation on the same tag object after a failure
+          MaxRetry,      \* 0 / 1: the application repeats the operation on the same tag object after a failure
+          Session        \* BOOLEAN: read -> format -> write in one session on the same tag object
 
 NewMsg(n) == [i \in 1..n |-> 160 + (i % 3)]
 OldMsg(n) == [i \in 1..n |-> <<0, 3, 1>>[(i % 3) + 1]]
@@ -320,15 +321,17 @@ VARIABLES lay, mem, plans, k, pc, op, msg, last,
 vars == <<lay, mem, plans, k, pc, op, msg, last, rd>>
 
 \* how far a fresh Type 2 reader has read after finding the NDEF TLV (16-byte chunks, up to the last value byte)
-ExtAfterRead(L) ==
-    IF ~IsT2(L) THEN Size(L.mem0)
-    ELSE LET w == Parse(L, L.mem0)
-             fs == FreeSeq(w.va, End(L, L.mem0) - 1, w.skip)
+ExtAfterReadM(L, m) ==
+    IF ~IsT2(L) THEN Size(m)
+    ELSE LET w == Parse(L, m)
+             fs == FreeSeq(w.va, End(L, m) - 1, w.skip)
              lastaddr == IF w.len = 0 \/ Len(fs) < w.len THEN w.va - 1 ELSE fs[w.len]
          IN RoundUp(lastaddr + 1, Chunk)
-FreshReader(L, m) == [cache |-> m, shadow |-> m, ext |-> ExtAfterRead(L),
-                      rsec |-> IF HasSectors(L) THEN SecOfAddr(ExtAfterRead(L) - 1) ELSE 0,
-                      tsec |-> IF HasSectors(L) THEN SecOfAddr(ExtAfterRead(L) - 1) ELSE 0,
+ExtAfterRead(L) == ExtAfterReadM(L, L.mem0)
+\* a tag object that has just read the NDEF data: it is left in the sector of the last chunk it read
+FreshReader(L, m) == [cache |-> m, shadow |-> m, ext |-> ExtAfterReadM(L, m),
+                      rsec |-> IF HasSectors(L) THEN SecOfAddr(ExtAfterReadM(L, m) - 1) ELSE 0,
+                      tsec |-> IF HasSectors(L) THEN SecOfAddr(ExtAfterReadM(L, m) - 1) ELSE 0,
                       nf |-> 0, tries |-> 0]
 
 Init ==
@@ -418,15 +421,28 @@ Retry ==
     /\ rd' = [rd EXCEPT !.tries = rd.tries + 1]
     /\ UNCHANGED <<lay, mem, op, msg, last>>
 
+\* the same tag object after a completed format(): Tag.format() drops the NDEF object (tag/__init__.py:305-306), the
+\* next access to tag.ndef reads the tag anew - whatever the reader held before the format is forgotten
+SessionWrite(n) ==
+    /\ Session /\ pc = "done" /\ op = "format" /\ rd.tries = 0
+    /\ op' = "write" /\ msg' = NewMsg(n) /\ k' = 0
+    /\ LET fr == [FreshReader(lay, mem) EXCEPT !.tries = 1, !.nf = rd.nf] IN
+       /\ rd' = fr
+       /\ IF n > CodeCap(lay)
+          THEN pc' = "rejected" /\ plans' = {}
+          ELSE pc' = "run" /\ \E p \in plans :
+                   plans' = {Tagged(WritePlanX(lay, fr.cache, fr.shadow, fr.ext, fr.rsec, NewMsg(n), p.v), p.v)}
+    /\ UNCHANGED <<lay, mem, last>>
+
 Next == (\E n \in LensFor(lay) : BeginWrite(n)) \/ (\E w \in Wipes : BeginFormat(w))
-        \/ DoCmd \/ Finish \/ PowerCut \/ FaultAt \/ Retry
+        \/ DoCmd \/ Finish \/ PowerCut \/ FaultAt \/ Retry \/ (\E n \in LensFor(lay) : SessionWrite(n))
 Spec == Init /\ [][Next]_vars
 
 \* ------------------------------------------------------------------ invariants
 All(L) == 0 .. (Size(L.mem0) - 1)
 RoundTrip   == pc = "done" => RoundTripP(lay, mem, op, msg)                                  \* C01
 CapSound    == CapSoundP(lay)                                                                \* C01
-RejectEarly == pc = "rejected" => k = 0 /\ mem = lay.mem0                                    \* C01
+RejectEarly == pc = "rejected" => k = 0 /\ (rd.tries = 0 => mem = lay.mem0)                  \* C01
 NoCrash     == pc # "crashed"                                                                \* C01
 Atomic      == AtomicP(lay, mem, op, msg)                                                    \* C02
 Confined    == ConfinedP(lay, mem, All(lay))                                                 \* C03
